@@ -111,15 +111,21 @@ def _text(fn) -> str:
     return "\n".join(ast.unparse(st) for st in _strip_doc(fn))
 
 
+_UNDECIDED: list = []
+
+
 def _decide(name: str, new: bool, old: bool) -> bool:
     if new == old:
-        raise TranslatorError(f"repair '{name}': " + ("both the repaired and the unrepaired shape" if new else "neither the repaired nor the unrepaired shape")
-                              + " recognised in expressions.py")
+        _UNDECIDED.append(f"repair '{name}': " + ("both the repaired and the unrepaired shape" if new else "neither the repaired nor the unrepaired shape")
+                          + " recognised in expressions.py")
+        return True      # lenient callers judge the tree against the repaired behaviour (the one the property asks for)
     return new
 
 
-def read_fixes(path: Path | None = None) -> tuple[dict, list]:
-    """-> ({fix name: bool}, [(operator spelling, model level)...])"""
+def read_fixes(path: Path | None = None, lenient: bool = False) -> tuple[dict, list]:
+    """-> ({fix name: bool}, [(operator spelling, model level)...]). A repair whose marker is ambiguous raises
+    TranslatorError, unless lenient (then it counts as present and the messages are left in read_fixes.undecided)."""
+    del _UNDECIDED[:]
     tree = ast.parse((path or (REPO / "src/_griffe/expressions.py")).read_text())
     funcs = {n.name: n for n in tree.body if isinstance(n, ast.FunctionDef)}
     classes = {n.name: n for n in tree.body if isinstance(n, ast.ClassDef)}
@@ -168,11 +174,14 @@ def read_fixes(path: Path | None = None) -> tuple[dict, list]:
     fixes["fnest"] = _decide("fnest", "in_formatted_str" in pj, pj == ["node", "parent", "in_joined_str"])
     sub = _text(funcs["_build_subscript"])
     fixes["litroot"] = _decide("litroot", "left.first" in sub, "isinstance(left, (ExprAttribute, ExprName)) and left.canonical_path in" in sub)
-    if fixes["fglue"] and not fixes["prec"]:
+    read_fixes.undecided = list(_UNDECIDED)
+    if _UNDECIDED and not lenient:
+        raise TranslatorError("; ".join(_UNDECIDED))
+    if fixes["fglue"] and not fixes["prec"] and not lenient:
         raise TranslatorError("repair 'fglue' without the precedence machinery it relies on")
     # the precedence table
     table = []
-    if fixes["prec"]:
+    if fixes["prec"] and all(marks):
         members = [st.targets[0].id for st in classes["_Precedence"].body if isinstance(st, ast.Assign) and len(st.targets) == 1 and isinstance(st.targets[0], ast.Name)]
         values = [st.value.value for st in classes["_Precedence"].body if isinstance(st, ast.Assign) and isinstance(st.value, ast.Constant)]
         if members != [m for m, _ in PREC_LEVELS] or values != sorted(values) or len(set(values)) != len(values) or len(values) != len(members):
